@@ -1060,7 +1060,7 @@ class Flat:
             return v + str(n)
         if ixe[0] == "id" and ixe[1] == self.loopvar:
             self.idx[v] = ("all", self.loop if not self.loop.startswith(":") else "")
-            return v + "[" + ixe[1] + "]"
+            return v + "[i]"
         raise ParseError("index of %s is neither a literal nor the loop variable" % v)
 
     def tyof(self, term):
@@ -1815,9 +1815,13 @@ def pinned_by_other():
 
 
 def pin():
+    """Returns False (and leaves the pin alone) when another running check already owns the table."""
+    if pinned_by_other():
+        return False
     os.makedirs(os.path.dirname(PIN), exist_ok=True)
     with open(PIN, "w") as f:
         f.write("%d\n%s\n" % (os.getpid(), repo()))
+    return True
 
 
 def unpin():
